@@ -598,6 +598,24 @@ class C09(World):
         want = {k: sorted(v) for k, v in want.items()}
         if gn != want:
             ctx.fail("model", "geometry_nodes", f"{gn} != {want}")
+        # the tree as the forest itself reports it (what apply_transform, subscene, the glTF export walk): current edges only
+        forest = graph.transforms
+        got_parents = {repr(c): repr(p) for c, p in forest.parents.items()}
+        want_parents = {repr(c): repr(p) for c, p in model.parent.items()}
+        if got_parents != want_parents:
+            ctx.fail("model", "parents", f"{got_parents} != {want_parents}")
+        got_children = {repr(p): sorted(repr(c) for c in cs) for p, cs in forest.children.items() if len(cs)}
+        want_children = {}
+        for c, p in model.parent.items():
+            want_children.setdefault(repr(p), []).append(repr(c))
+        want_children = {p: sorted(cs) for p, cs in want_children.items()}
+        if got_children != want_children:
+            ctx.fail("model", "children", f"{got_children} != {want_children}")
+        for n in model.nodes:
+            got_s = sorted(repr(x) for x in forest.successors(n))
+            want_s = sorted(repr(x) for x in model.nodes if x == n or model.is_ancestor(n, x))
+            if got_s != want_s:
+                ctx.fail("model", "successors", f"successors({n!r}) = {got_s} != {want_s}")
 
     def _edgelist(self, graph, model, ctx):
         from trimesh.scene.transforms import SceneGraph
